@@ -24,6 +24,9 @@ pub enum FaultMode {
     Error,
     /// From index k on the peer appears to have closed the stream.
     Eof,
+    /// Only the sending direction breaks (from the first send operation at or after index k):
+    /// sends and flushes fail, receiving stays possible.
+    SendError,
 }
 
 pub struct FaultCtl {
@@ -63,19 +66,38 @@ impl FaultCtl {
     }
 
     fn op(&mut self) -> Result<(), SimTransportError> {
+        self.op_dir(true)
+    }
+
+    /// Counts an operation; `send` tells the direction.
+    fn op_dir(&mut self, send: bool) -> Result<(), SimTransportError> {
         if let Some(m) = self.failing {
-            return Err(err_of(m));
+            if send || m != FaultMode::SendError {
+                return Err(err_of(m));
+            }
         }
         let k = self.ops;
         self.ops += 1;
         if let Some((at, mode)) = self.fail_at {
-            if at == k {
+            let hit = if mode == FaultMode::SendError {
+                send && k >= at && self.failing.is_none()
+            } else {
+                at == k
+            };
+            if hit {
                 self.failing = Some(mode);
                 self.fired = true;
                 return Err(err_of(mode));
             }
         }
         Ok(())
+    }
+
+    fn recv_blocked(&self) -> Option<SimTransportError> {
+        match self.failing {
+            Some(m) if m != FaultMode::SendError => Some(err_of(m)),
+            _ => None,
+        }
     }
 
     fn buggify(&mut self, cx: &mut Context) -> bool {
@@ -91,7 +113,7 @@ impl FaultCtl {
 
 fn err_of(m: FaultMode) -> SimTransportError {
     match m {
-        FaultMode::Error => SimTransportError::Injected,
+        FaultMode::Error | FaultMode::SendError => SimTransportError::Injected,
         FaultMode::Eof => SimTransportError::Eof,
     }
 }
@@ -132,13 +154,13 @@ impl AsyncTransport for Faulty {
         let this = self.get_mut();
         {
             let mut ctl = this.ctl.borrow_mut();
-            if let Some(m) = ctl.failing {
-                return Poll::Ready(Err(err_of(m)));
+            if let Some(e) = ctl.recv_blocked() {
+                return Poll::Ready(Err(e));
             }
             // A fault planned for the current operation index also fires while the transport is
             // idle (the link breaks while the client waits).
             if let Some((at, mode)) = ctl.fail_at {
-                if at == ctl.ops {
+                if at == ctl.ops && mode != FaultMode::SendError {
                     ctl.ops += 1;
                     ctl.failing = Some(mode);
                     ctl.fired = true;
@@ -154,7 +176,7 @@ impl AsyncTransport for Faulty {
             Ok(None) => Poll::Pending,
             Ok(Some(msg)) => {
                 let mut ctl = this.ctl.borrow_mut();
-                if let Err(e) = ctl.op() {
+                if let Err(e) = ctl.op_dir(false) {
                     return Poll::Ready(Err(e));
                 }
                 ctl.received += 1;
